@@ -8,7 +8,7 @@
     values), every combination of options, every grace period and interval, every fault plan and
     cancellation point, every clock. [file s k] is the value of the terminal key k.
     [jt o clk s0 k] = deleting k is justified at one of the readings: exists i, justified o (clk i) s0 k. *)
-From CM Require Import Lib.Str Lib.CleanSyntax Gen.Consts Clean.Model Clean.Proofs Clean.Prog Clean.Check Clean.SpecProofs Clean.Concurrent Clean.Interfere Clean.Effective Clean.EffectiveCerts Clean.Kill.
+From CM Require Import Lib.Str Lib.CleanSyntax Gen.Consts Clean.Model Clean.Proofs Clean.Prog Clean.Check Clean.SpecProofs Clean.Concurrent Clean.Interfere Clean.Effective Clean.EffectiveCerts Clean.Kill Clean.InterfereSeq.
 From Coq Require Import String Ascii.
 Open Scope Z_scope.
 
@@ -269,6 +269,30 @@ Theorem C18_interference_live_assets_untouched : forall e clk fs o s0 base suf v
   lookup (sto (snd (cleani e fs o clk s0))) (base ++ suf) = lookup s0 (base ++ suf).
 Proof. exact cleani_live_frame. Qed.
 Print Assumptions C18_interference_live_assets_untouched.
+
+(** ** several actors at several instants, alongside several cleaners: a history is any number of cleanings (in the
+    order in which the cleaners hold the lock; each with its own options, clock, fault plan) with any operations of
+    other actors during each of them (at any of its calls, [ir_fs]) and between them ([ir_pre]). The two frame
+    theorems hold for every such history. *)
+Theorem C18_history_other_keys_untouched : forall k,
+  has_prefix ocsp_pfx k = false -> has_prefix certs_pfx k = false -> k <> spec_last_clean ->
+  forall runs s0,
+  (forall r, In r runs -> (forall i f, In (i, f) (ir_fs r) -> touches k f = false) /\
+                          (forall f, In f (ir_pre r) -> touches k f = false)) ->
+  lookup (cleani_seq runs s0) k = lookup s0 k.
+Proof. exact cleani_seq_frame. Qed.
+Print Assumptions C18_history_other_keys_untouched.
+
+Theorem C18_history_live_assets_untouched : forall base v c, site_assetb (base ++ spec_ext_crt) = true ->
+  forall runs s0, lookup s0 (base ++ spec_ext_crt) = Some (File v c) ->
+  (forall r, In r runs ->
+     (forall i, spec_expired (ir_clk r i) (grace (ir_opts r)) c = false) /\
+     (forall suf, In suf asset_exts ->
+        (forall i f, In (i, f) (ir_fs r) -> covers (fkey f) (base ++ spec_ext_crt) = false /\ covers (fkey f) (base ++ suf) = false) /\
+        (forall f, In f (ir_pre r) -> covers (fkey f) (base ++ spec_ext_crt) = false /\ covers (fkey f) (base ++ suf) = false))) ->
+  forall suf, In suf asset_exts -> lookup (cleani_seq runs s0) (base ++ suf) = lookup s0 (base ++ suf).
+Proof. exact cleani_seq_live. Qed.
+Print Assumptions C18_history_live_assets_untouched.
 
 (** without foreign operations the interfered cleaning is the model *)
 Theorem C18_no_interference_is_model : forall e o clk s0, cleani e [] o clk s0 = clean e o clk s0.
@@ -739,3 +763,28 @@ Example ex_killed :
   lookup (sto (cleank ex_env 12 ex_opts_ni (at_ T) ex_store2)) (s2k "certificates/iss/dead.example/dead.example.key") <> None /\
   kill_at ex_env = None.
 Proof. vm_compute. split; [reflexivity|]. split; [reflexivity|]. split; [reflexivity|]. split; [discriminate | reflexivity]. Qed.
+
+(** a history with two cleaners and three other actors (a renewal into the dead site during the first cleaning, a
+    note file and the deletion of a staple between the cleanings, a new account during the second): the hypotheses
+    of the two history theorems are met for the account key and the live certificate, which survive *)
+Definition ex_history : list irun :=
+  [ IRun ex_env [(10%nat, FPut ex_renewed (File 77 (crt (T + 90 * day))))] ex_opts0 (at_ T) [];
+    IRun ex_env [(3%nat, FPut (s2k "acme/ca/users/new/new.key") (File 78 plain))] ex_opts_ni (ticking T)
+         [FPut (s2k "certificates/iss/dead.example/note.txt") (File 79 plain); FDel (s2k "ocsp/a-stale")] ].
+Example ex_history_hyps :
+  let k := s2k "acme/ca/users/u/u.key" in
+  let base := s2k "certificates/iss/live.example/live.example" in
+  (forall r, In r ex_history -> (forall i f, In (i, f) (ir_fs r) -> touches k f = false) /\
+                                (forall f, In f (ir_pre r) -> touches k f = false)) /\
+  lookup (cleani_seq ex_history ex_fs_store2) k = Some (File 13 plain) /\
+  lookup (cleani_seq ex_history ex_fs_store2) (base ++ spec_ext_key) = Some (File 31 plain) /\
+  lookup (cleani_seq ex_history ex_fs_store2) (s2k "acme/ca/users/new/new.key") = Some (File 78 plain).
+Proof.
+  split.
+  - intros r [<-|[<-|[]]]; split.
+    + intros i f [E|[]]. injection E; intros <- _. reflexivity.
+    + intros f [].
+    + intros i f [E|[]]. injection E; intros <- _. reflexivity.
+    + intros f [<-|[<-|[]]]; reflexivity.
+  - vm_compute. repeat split; reflexivity.
+Qed.
